@@ -742,6 +742,11 @@ def hyps_run(ctx, items):
         ex["H_dual_evaluated"] += 1
         q["dual"] = (o["dual"][0] == "1")
         ex["H_dual_true"] += int(q["dual"])
+        fam = f"shift={int(q['shift'])}/" + ("dyadic" if q["case"].get("bits") else "float64")
+        bd = ex.setdefault("H_dual_true_by_family", {})
+        bd.setdefault(fam, [0, 0])
+        bd[fam][0] += int(q["dual"])
+        bd[fam][1] += 1
 
 
 def dual_line(q):
